@@ -6,6 +6,9 @@
 (* with 3 decimals as integers in 1/1000; -1 = missing / ".").  The summary is *)
 (* recomputed from the trace with the functionals of TraceFunctionals and      *)
 (* every printed field must be one the model admits.                           *)
+(* Allele traces (call / call-pedigree / the sampler classes started from an    *)
+(* unsorted initial vector) must be stored ascending at every step: that is    *)
+(* where order invariance is established for them.                             *)
 (*   hapnum[h+1] = record allele number of trace haplotype h (-1: not listed)  *)
 (*   gtnum[h+1]  = number used in GT (-1: "." , e.g. masked reference)         *)
 EXTENDS Integers, Sequences, FiniteSets, TLC, Json, IOUtils, TraceFunctionals
@@ -41,7 +44,8 @@ Verdict(e) ==
       cnt(a) == IF e.kind = "hap" THEN Over(e, sm.acount, a) ELSE sm.acount[a + 1]
       occ(a) == IF e.kind = "hap" THEN Over(e, sm.occ, a) ELSE sm.occ[a + 1]
       gpAt(r) == LET hit == {p \in sm.arr : p[1] = r} IN IF hit = {} THEN 0 ELSE (CHOOSE p \in hit : TRUE)[2]
-  IN  IF n # e.c * (e.s - e.burn) THEN "BurnExact"
+  IN  IF e.kind # "hap" /\ ~(\A c \in 1..e.c, s \in 1..e.s : IsSorted(e.tr[c][s])) THEN "StoredAscending"
+      ELSE IF n # e.c * (e.s - e.burn) THEN "BurnExact"
       ELSE IF Len(o.gt) # e.p \/ ~GtOrdered(o.gt) THEN "GtShape"
       ELSE IF ~callOk THEN "GtGpmSpmIsACall"
       ELSE IF o.afp # <<>> /\ ~(Len(o.afp) = e.nrec /\ \A a \in 1..e.nrec : Close(o.afp[a], cnt(a - 1), n * e.p))
